@@ -117,7 +117,9 @@ def IntEnc.decode (e : IntEnc) (s : RS) : Res (Int × RS) :=
         match sub32 (ofU 32 (2 ^ n + m)) offset with
         | .error e => .error e
         | .ok v => .ok (v, { s with core := r })
-  | _ => .error .panic
+  /- Golomb, Subexp, GolombRice: `InvalidData "unsupported encoding"` (after the fix
+  `cram-encoding-decoders-panic`: before it `todo!()`, a panic) -/
+  | _ => .error .invalidData
 
 /-- `impl Decode for Byte` -/
 def ByteEnc.decode (e : ByteEnc) (s : RS) : Res (Nat × RS) :=
